@@ -179,6 +179,8 @@ class Verifier(ExprMixin, StmtMixin, CallMixin, LibMixin, FoldMixin, Executor):
         if not rets:
             return self.obligations
         self.rets_for_events = rets
+        if getattr(self, "footprint_only", False):
+            return self.obligations
         split = c is not None and "paths" in c.flags and not fr.defers
         if split and c.of("cover"):
             raise Unsupported("cover clauses in a path-split function")
